@@ -74,8 +74,10 @@ def cross_build(n, seed, profile, length):
     agree once token-factory messages are decoded (C19: all other behaviour identical)"""
     from .implworld import decode_msg
     from .procs import canon_msgs, outcome
+    from . import monitors as M
     stats = {"histories": 0, "events": 0, "calls": 0}
     divs = []
+    findings = []
     hs = {b: Harness(b) for b in ("osmosis", "miniwasm")}
     try:
         for i in range(n):
@@ -83,7 +85,7 @@ def cross_build(n, seed, profile, length):
             traces = {}
             for b, h in hs.items():
                 st = Stats()
-                hist = History(h, None, sd, profile, st, build=b, mode="impl")
+                hist = History(h, None, sd, profile, st, build=b, mode="impl", monitors=[M.m_tokenfactory])
                 tr = []
                 try:
                     if hist.boot():
@@ -99,6 +101,8 @@ def cross_build(n, seed, profile, length):
                                     r = c["result"]
                                     o = outcome(r)
                                     msgs = [decode_msg(m) for m in canon_msgs(r["ok"])] if o == "ok" else []
+                                    for m in msgs:
+                                        m.pop("url", None)      # the module differs by build; judged by m_tokenfactory
                                     rec.append((c["entry"], o, json.dumps(msgs, sort_keys=True)))
                                 tr.append({"ev": ev, "committed": tx["committed"], "calls": rec,
                                            "dump": json.dumps(hist.dump, sort_keys=True)})
@@ -106,6 +110,11 @@ def cross_build(n, seed, profile, length):
                 except Exception as e:  # noqa: BLE001
                     tr.append({"error": repr(e)})
                 traces[b] = (tr, hist.events)
+                for f in hist.findings:
+                    f.setdefault("seed", sd)
+                    f.setdefault("events", list(hist.events[:f["upto"]]))
+                    f["build"] = b
+                    findings.append(f)
                 stats["calls"] += st.calls
             stats["histories"] += 1
             a, ea = traces["osmosis"]
@@ -124,4 +133,4 @@ def cross_build(n, seed, profile, length):
     finally:
         for h in hs.values():
             h.close()
-    return stats, divs
+    return stats, divs, findings
